@@ -487,6 +487,27 @@ class Inliner:
                             continue
                 if not self._only_read(f, name, creates=_creates(asg.value)):
                     continue
+                # attribute / item reads of the value must not be overwritten after the definition (`saved = lib.setting;
+                # lib.setting = new; ...; lib.setting = saved` - the local holds the OLD value)
+                reads = {ast.unparse(x) for x in ast.walk(asg.value) if isinstance(x, (ast.Attribute, ast.Subscript))}
+                if reads:
+                    clobber = []
+                    for n2 in ast.walk(f.node):
+                        if isinstance(n2, (ast.Assign, ast.AugAssign, ast.AnnAssign, ast.Delete)):
+                            tg2 = n2.targets if isinstance(n2, (ast.Assign, ast.Delete)) else [n2.target]
+                            for t2 in tg2:
+                                for x2 in ast.walk(t2):
+                                    if isinstance(x2, (ast.Attribute, ast.Subscript)) and isinstance(x2.ctx, (ast.Store, ast.Del)):
+                                        tx = ast.unparse(x2)
+                                        if any(r == tx or r.startswith(tx + ".") or r.startswith(tx + "[") for r in reads):
+                                            clobber.append(n2)
+                    if clobber:
+                        try:
+                            cfg1 = CFG(f.node)
+                            if any(cfg1.reachable(asg, c2) for c2 in clobber):
+                                continue
+                        except Exception:
+                            continue
                 try:
                     cfg = CFG(f.node)
                     if not all(cfg.dominates(asg, u) and cfg.node_of(u) is not asg for u in uses):
